@@ -10,12 +10,8 @@ def main(argv):
         from . import setup
         return setup.main()
     if cmd == 'replay':
-        body = json.load(open(argv[1]))
-        eng = body.get('engine', 'core')
-        if eng == 'core':
-            from . import engine_core
-            return engine_core.replay(argv[1])
-        raise SystemExit('unknown engine ' + eng)
+        from . import registry
+        return registry.replay(argv[1])
     if cmd == 'selftest':
         from . import selftest
         return selftest.main(argv[1:])
